@@ -204,10 +204,10 @@ def conversions(chk, lab):
     C = M + 'mapped_page_table::PageTableCreateError'
     table = []
     for tgt in ('UnmapError', 'FlagUpdateError', 'TranslateError'):
-        fn_ = '%smapped_page_table::<impl core::convert::From<%s> for %s%s>::from' % (M, W, M, tgt)
+        fn_ = '<%s%s as core::convert::From<%s>>::from' % (M, tgt, W)
         table.append((fn_, W, {'MappedToHugePage': 'ParentEntryHugePage', 'NotMapped': 'PageNotMapped'}))
     for s in SIZES3:
-        fn_ = '%smapped_page_table::<impl core::convert::From<%s> for %sMapToError<structures::paging::page::%s>>::from' % (M, C, M, s)
+        fn_ = '<%sMapToError<structures::paging::page::%s> as core::convert::From<%s>>::from' % (M, s, C)
         table.append((fn_, C, {'MappedToHugePage': 'ParentEntryHugePage', 'FrameAllocationFailed': 'FrameAllocationFailed'}))
     from .common import enum_val
     # These enums and impls are private plumbing between the walker and the public errors; what they must achieve is decided end to end
